@@ -593,7 +593,7 @@ func ruleHeapIterator(r *Run) {
 	isElem0 := func(v ssa.Value) bool {
 		// heap.Min(), or elements[0] read directly
 		v = originValue(v)
-		if mc, ok := v.(*ssa.Call); ok && staticCallee(mc) != nil && staticCallee(mc).Name() == "Min" {
+		if mc, ok := v.(*ssa.Call); ok && staticCallee(mc) != nil && cname(staticCallee(mc)) == "Min" {
 			return true
 		}
 		if lu, ok := v.(*ssa.UnOp); ok {
@@ -620,7 +620,7 @@ func ruleHeapIterator(r *Run) {
 					}
 				}
 				if c, ok := x.X.(*ssa.Call); ok {
-					isLen := staticCallee(c) != nil && staticCallee(c).Name() == "Len"
+					isLen := staticCallee(c) != nil && cname(staticCallee(c)) == "Len"
 					if bi, ok := c.Call.Value.(*ssa.Builtin); ok && bi.Name() == "len" {
 						if f, _, ok := loadOfField(c.Call.Args[0]); ok && f == "elements" {
 							isLen = true
